@@ -55,13 +55,31 @@ def cmpNarrow (l r : Expr) : Bool :=
 /-- *widen-in-place*: the widening shift pair is applied to the left operand's own register -/
 def widenInPlace (l r : Expr) : Bool := (atomInfo l r).widen && regChain l
 
+/-- the operand mentions a value of at most 4 bytes (the property's width rule: such a leaf makes W = 32) -/
+def narrowLeaf : Expr → Bool
+  | .const _ => false
+  | .reg _ lg _ => !lg
+  | .bin _ l r _ _ => narrowLeaf l || narrowLeaf r
+  | .neg a => narrowLeaf a
+  | .abs a => narrowLeaf a
+  | .mem f _ => !f.isLong
+
+def isConstE : Expr → Bool
+  | .const _ => true
+  | _ => false
+
+/-- *const-left-32*: a compound operand is computed in 32 bits (width `None` takes the width of the leftmost
+operand, here a constant) although every variable and register in it is 64 bits wide -/
+def constLeft32 (e : Expr) (w : Bool) : Bool := !w && !narrowLeaf e && !isConstE e
+
 def atomClasses (l r : Expr) : List String :=
   let a := atomInfo l r
   ([("u64-vs-negative-short", u64NegShort l r), ("narrow-reg-in-64", cmpNarrow l r),
     ("widen-in-place", widenInPlace l r),
     ("unary-in-place", unaryInPlace l false || (!a.rImm && unaryInPlace r false)),
     ("unary-32-in-64", neg32in64 l a.lLong || (!a.rImm && neg32in64 r a.rWidth)),
-    ("abs-32", abs32 l a.lLong || (!a.rImm && abs32 r a.rWidth))].filter (·.2)).map (·.1)
+    ("abs-32", abs32 l a.lLong || (!a.rImm && abs32 r a.rWidth)),
+    ("const-left-32", constLeft32 l a.lLong || (!a.rImm && constLeft32 r a.rWidth))].filter (·.2)).map (·.1)
 
 def CObj.classes : CObj → List String
   | .simple _ _ l r => atomClasses l r
